@@ -83,7 +83,7 @@ def dumpAccts (s : Accts) : List (String × String) :=
 def lookupSlot (l : List (String × String)) (k : String) : String :=
   match l.find? (fun p => p.1 == k) with
   | some p => p.2
-  | none => ""
+  | none => if k.endsWith "/reward" || k.endsWith "/balance" then "0" else ""
 
 def diffAccts (pre post : Accts) : List String :=
   let a := dumpAccts pre
@@ -281,7 +281,7 @@ def step (w : World) (line : String) : World × String :=
     match rest with
     | [d] =>
       match parseStorage (unhxD d) with
-      | .ok ps => (w, "ok " ++ joinWith "," (ps.map fun (o, v) => hxItem o ++ ":" ++ hxItem v))
+      | .ok ps => (w, "ok " ++ joinWith "," (ps.map fun (o, v) => hx o ++ ":" ++ hx v))
       | .err e => (w, "err:" ++ perrName e)
       | .panic => (w, "panic")
     | _ => (w, "badop")
